@@ -260,14 +260,14 @@ def execute(ctx, plan):
     # ---- model: who asked last -------------------------------------------------------------
     model = {d: False for d in DEVS}           # False / True / "either" (timeout protection may have tripped)
     hits = {d: [] for d in timeout}            # processed activations of the device's switch
-    requests = {"n": 0}
 
     # Second, absolute oracle for the last sentence of the statement, independent of ball_will_end /
     # service_mode_entered being posted at all.  An "episode" starts whenever service mode is entered (seen through
     # ServiceController.is_in_service()), a ball in play is tilted (event tilt) or a ball ends (ball_will_end; if
-    # MPF never posted it for this ball, the queue event ball_ending that follows it).  While the machine is in service, tilted, between balls
-    # or without a game, a device may be enabled only on behalf of a private enable request processed in the
-    # current episode (own[d] == episode); ball_started hands ownership to the game lifecycle (own[d] = None).
+    # MPF never posted it for this ball, the queue event ball_ending that follows it).  While the machine is in
+    # service, tilted, between balls or without a game, a device may be enabled only on behalf of a private
+    # enable request processed in the current episode (own[d] == episode); ball_started hands ownership to the
+    # game lifecycle (own[d] = None).
     # Relaxation: "the machine tilts" is read as "a ball in play is tilted".  A tilt between two balls ends no
     # ball, so MPF posts no ball_will_end until the next ball has started; a device enabled by a private request
     # in that gap is not judged.  Likewise "no game is running" is reached through the last ball's end; a private
@@ -290,7 +290,6 @@ def execute(ctx, plan):
         return {"service": service, "game": g is not None, "tilted": play["tilt"], "ball": play["ball"]}
 
     def m_enable(d, why):
-        requests["n"] += 1
         update_phase()
         if devobj[d]._enabled:
             ctx.probe("enable_while_enabled")
@@ -298,7 +297,6 @@ def execute(ctx, plan):
         model[d] = True
 
     def m_disable(d, why):
-        requests["n"] += 1
         update_phase()
         own[d] = None
         if not devobj[d]._enabled:
@@ -329,6 +327,7 @@ def execute(ctx, plan):
         phase["ball"] = True
         update_phase()
         play["ball"] = True
+        play["end_seen"] = False
         for d in BALL_STARTED_DEVS:
             m_enable(d, "ball_started")
 
@@ -371,6 +370,7 @@ def execute(ctx, plan):
         pf.balls = 0
         pf.available_balls = 0
     on_event("game_ended", h_game_ended)
+
     def note(name, probe=None):
         def h(**kwargs):
             if probe:
